@@ -78,6 +78,19 @@ theorem closeLoop_sound {α} [DecidableEq α] (f : List α → Option (List α))
       · obtain ⟨h1, h2⟩ := ih _ _ h
         exact ⟨fun x hx => h1 x (mem_union.mpr (Or.inl hx)), h2⟩
 
+theorem mem_of_lookup {α β} [BEq α] [LawfulBEq α] {l : List (α × β)} {k : α} {b : β}
+    (h : l.lookup k = some b) : (k, b) ∈ l := by
+  induction l with
+  | nil => simp [List.lookup] at h
+  | cons p r ih =>
+    obtain ⟨k', b'⟩ := p
+    simp only [List.lookup] at h
+    split at h
+    · rename_i heq
+      have : k = k' := by simpa using heq
+      cases h; subst this; exact List.mem_cons_self
+    · exact List.mem_cons_of_mem _ (ih h)
+
 /-! ### the monad -/
 
 theorem bind_ok {ε α β} {x : Except ε α} {f : α → Except ε β} {b : β}
